@@ -197,7 +197,7 @@ func runC10(c *core.Ctx) {
 			if isProbe(c, cs.Fn) {
 				continue
 			}
-			cst, ok := argOf(cs.Instr, 0).(*ssa.Const)
+			cst, ok := asConst(argOf(cs.Instr, 0))
 			key := fname(cs.Fn) + " NewReplicaReadRequest"
 			if !ok {
 				a.viol(key, cs.Instr, "command type is not a constant: cannot show it is a read command")
@@ -270,7 +270,7 @@ func runC10(c *core.Ctx) {
 						for _, d := range p.Prov().Desc(r.Results[0]) {
 							if d != "const(false)" {
 								// φ may merge; be path sensitive: only a constant true/unknown counts
-								if cst, ok := r.Results[0].(*ssa.Const); ok && cst.Value.String() == "false" {
+								if cst, ok := asConst(r.Results[0]); ok && cst.Value.String() == "false" {
 									return false
 								}
 								if phi, ok := r.Results[0].(*ssa.Phi); ok {
